@@ -10,8 +10,15 @@
     pvt.live <O|G> <rec|rec|…> <query,…>                  rec = key=y:B:mu;y:B:mu;…
         query  b:x:y -> invB/mu     s:p -> satInvB/satMu/rs     q:r -> psat | noconv
     pvt.dump <O|G> <rec|rec|…>                            all internal tables
+    pvt.regions <key,-,key,…>                             PvtxTable::init for tableIdx 0 … numTables:
+        one token per deck record of a PVTO/PVTG keyword: the key, or `-` for a terminator
+        (`@` alone: no records);
+        per tableIdx  key,key,… | - (no records) | err:first | err:nosuch
+    pvt.simple <col;-;col;…>                              initSimpleTableContainer (PVDO/PVDG):
+        one entry per record (`-` = defaulted); answer col|col|… or err
 -/
 import OpmVerif.Model.Pvt
+import OpmVerif.Model.PvtRegion
 import OpmVerif.Model.Basic
 import OpmVerif.Gen.Tab2D
 import OpmVerif.Gen.Pvt
@@ -106,8 +113,25 @@ def showList (l : List Float) : String :=
 def showTable (t : Table Float) : String :=
   s!"{showList t.xPos} {showList t.yPos} {";".intercalate (t.colY.map showList)} {";".intercalate (t.colV.map showList)}"
 
+def parseRecords (s : String) : List (Option Float) :=
+  if s = "@" then [] else
+  (s.splitOn ",").map fun t => if t = "-" then none else some (parseF t)
+
+def regionAnswer (recs : List (Option Float)) (k : Nat) : String :=
+  match PvtRegion.init recs k with
+  | .ok t => showList t
+  | .error .cannotDefaultFirst => "err:first"
+  | .error .noSuchTable => "err:nosuch"
+
 def handle (op : String) (args : List String) : String :=
   match op, args with
+  | "pvt.regions", [recs] =>
+    let rs := parseRecords recs
+    " ".intercalate ((List.range ((PvtRegion.recordRanges rs).length + 1)).map (regionAnswer rs))
+  | "pvt.simple", [tabs] =>
+    match PvtRegion.simpleResolve ((tabs.splitOn ";").map parseList) with
+    | none => "err"
+    | some ts => "|".intercalate (ts.map showList)
   | "pvt.t1", [srt, ex, xs, ys, qs] =>
     let xy :=
       if srt = "-" then (parseList xs, parseList ys)
